@@ -64,7 +64,7 @@ AfterHooks  == (IF cfg.after THEN {"after"} ELSE {}) \cup (IF cfg.afterCtx THEN 
 IsCancelled(c) == c \in cancelled
 
 \* ------------------------------------------------- frame normalisation
-\* A publish frame is [k |-> "pub", pub, t, val, ctx, n, pc, todo, snap, i, retire].
+\* A publish frame is [k |-> "pub", pub, t, val, ctx, n, pc, todo, snap, i, retire, claimed, pre].
 \* After each step the frame is moved to the next point at which something happens.
 AfterAfter(f)  == IF cfg.obs THEN [f EXCEPT !.pc = "obs1"] ELSE [f EXCEPT !.pc = "ret"]
 AfterRetire(f) == IF AfterHooks # {} THEN [f EXCEPT !.pc = "after", !.todo = AfterHooks] ELSE AfterAfter(f)
@@ -128,6 +128,10 @@ RemTargets(o) ==
   ELSE IF o.op = "clear" THEN {r \in DOMAIN attr : attr[r].t = o.t}
   ELSE IF o.op = "clearall" THEN DOMAIN attr
   ELSE {}
+
+\* registrations that a removal call in flight right now could still take out
+PendingRemTargets ==
+  UNION {RemTargets(Top(g).o) : g \in {h \in Gs : stack[h] # <<>> /\ Top(h).k = "op" /\ Top(h).pc \in {"lin", "ret"}}}
 
 \* ------------------------------------------------------------------ init
 InitWith(c) ==
@@ -238,6 +242,7 @@ OpRet(g, res) ==
      gh' = [gh EXCEPT
         !.subDone = IF o.op = "sub" THEN @ \cup {o.id} ELSE @,
         !.remDone = @ \cup Top(g).rm,
+        !.remStarted = @ \cup Top(g).rm,
         !.waitNeeds = Restrict(@, DOMAIN @ \ {g})]
   /\ UNCHANGED <<cfg, reg, attr, fired, seqHolder, cancelled, closed, pubs, npub>>
 
@@ -248,11 +253,12 @@ PubCall(g, p, t, val, ctx) ==
   /\ p \notin DOMAIN pubs
   /\ t \in Types
   /\ Push(g, AfterStart([k |-> "pub", pub |-> p, t |-> t, val |-> val, ctx |-> ctx, n |-> npub + 1, pc |-> "start",
-                         todo |-> {}, snap |-> <<>>, i |-> 1, retire |-> {}]))
+                         todo |-> {}, snap |-> <<>>, i |-> 1, retire |-> {}, claimed |-> {},
+                         pre |-> IsCancelled(ctx)]))
   /\ pubs' = (p :> [g |-> g, t |-> t, val |-> val, ctx |-> ctx]) @@ pubs
   /\ npub' = npub + 1
   /\ gh' = [gh EXCEPT
-        !.must = (p :> {r \in gh.subDone : attr[r].t = t /\ r \notin gh.remStarted}) @@ @,
+        !.must = (p :> {r \in gh.subDone : attr[r].t = t /\ r \notin gh.remStarted /\ r \notin PendingRemTargets}) @@ @,
         !.mustNot = (p :> (gh.remDone \cup {r \in DOMAIN attr : attr[r].t # t})) @@ @,
         !.got = (p :> {}) @@ @,
         !.rej = (p :> {}) @@ @]
@@ -295,8 +301,17 @@ Claim(g) ==
        IF IsCancelled(f.ctx) \/ r \in fired
        THEN /\ SetTop(g, NextHandler(f)) /\ UNCHANGED fired
        ELSE /\ fired' = fired \cup {r}
-            /\ SetTop(g, [f EXCEPT !.pc = "dispatch", !.retire = @ \cup {r}])
+            /\ SetTop(g, [f EXCEPT !.pc = "dispatch", !.retire = @ \cup {r}, !.claimed = @ \cup {r}])
   /\ UNCHANGED <<cfg, reg, attr, seqHolder, cancelled, closed, pubs, npub, gh>>
+
+\* C04: a Once registration claimed by publish p whose body never starts (and will never start) was used up
+\* without running.  That is only legitimate if the context was cancelled after the publish was called
+\* (pre = the context was already cancelled when the publish was called).
+OnceWasted(g) ==
+  \E r \in Top(g).claimed :
+     /\ r \notin gh.onceRan
+     /\ ~IsCancelled(Top(g).ctx) \/ Top(g).pre
+     /\ ~\E k \in Tasks : stack[k][1].reg = r
 
 \* internal: dispatch of the current registration: asynchronous ones are counted in the wait group
 \* and get their own goroutine; synchronous ones are skipped if the context is cancelled by now.
@@ -434,7 +449,8 @@ PubRet(g) ==
           !.must = Restrict(@, DOMAIN @ \ {p}), !.mustNot = Restrict(@, DOMAIN @ \ {p}),
           !.got = Restrict(@, DOMAIN @ \ {p}), !.rej = Restrict(@, DOMAIN @ \ {p}),
           !.bad = @ \cup Flag(\E r \in gh.must[p] : r \notin gh.got[p] /\ ~Excused(p, r), "mustMissed")
-                    \cup Flag(OnceLeftBehind(g), "onceLeft")]
+                    \cup Flag(OnceLeftBehind(g), "onceLeft")
+                    \cup Flag(OnceWasted(g), "onceWasted")]
   /\ UNCHANGED <<cfg, reg, attr, fired, seqHolder, cancelled, closed, npub>>
 
 \* all internal steps of goroutine g
@@ -461,6 +477,8 @@ MustDeliver == "mustMissed" \notin gh.bad
 OnceAtMostOnce == "onceTwice" \notin gh.bad
 \* C04: a Once registration that ran is out of the registry when the publish that claimed it is over
 OnceRetired == "onceLeft" \notin gh.bad
+\* C04: a Once registration is never used up by a publish that did not run it
+OnceNotWasted == "onceWasted" \notin gh.bad
 \* C06: Wait / Shutdown(nil) return only after the async work of earlier publishes is done; Close only then
 WaitCovers == "waitEarly" \notin gh.bad
 CloseOnlyWhenDrained == "closedEarly" \notin gh.bad
